@@ -108,3 +108,53 @@ func VerifC19_GraceQueryIsReadOnly() {
 	_, ka := e.controllerCache["key-a"]
 	verifrt.Assert(ka == pendA, "C19.grace.queryLeavesKeysInPlace")
 }
+
+// VerifC19_GraceRegistryOnlyTouchedUnderItsLock: the grace registry is shared by every rollout's traffic-routing
+// operations.  For every path of every operation, from a registry that holds symbolic records of two other keys: the
+// record map and the per-key action maps are read only with the RWMutex held (read or write) and written only with it
+// write-locked; no operation takes the lock twice; every operation has released it on return.  (The *time.Time values
+// are published once and never modified, they are not part of the guarded state.)
+func VerifC19_GraceRegistryOnlyTouchedUnderItsLock() {
+	e := NewGraceExpectations()
+	vPrepopulate(e, "ns/orders/svc", "act", "a")
+	vPrepopulate(e, "ns/orders-v2/svc", "act", "b")
+	key := []string{"ns/orders/svc", "ns/orders-v2/svc", "ns2/orders/svc"}[verifrt.IntRange("op.key", 0, 2)]
+	action := Action("act")
+	if verifrt.Bool("op.otherAction") {
+		action = "other"
+	}
+	n := verifrt.Bound("ops", 1, 2)
+	verifrt.GuardedBy("C19.grace", &e.RWMutex, e)
+	for i := 0; i < n; i++ {
+		switch verifrt.IntRange("op", 0, 6) {
+		case 0:
+			verifrt.Cover("expect")
+			e.Expect(key, action)
+		case 1:
+			verifrt.Cover("observe")
+			e.Observe(key, action)
+		case 2:
+			verifrt.Cover("satisfied")
+			e.SatisfiedExpectations(key, action, int32(verifrt.IntRange("graceSeconds", 0, 10)))
+		case 3:
+			verifrt.Cover("delete")
+			e.DeleteExpectations(key)
+		case 4:
+			verifrt.Cover("get")
+			e.GetExpectations(key)
+		case 5:
+			verifrt.Cover("clean")
+			e.CleanOutdatedItems(time.Duration(verifrt.IntRange("clean.interval", 0, 30)) * time.Second)
+		case 6:
+			verifrt.Cover("wrapper")
+			done, failed := verifrt.Bool("f.done"), verifrt.Bool("f.failed")
+			runWithGraceSeconds(e, key, string(action), int32(verifrt.IntRange("graceSeconds", 0, 10)), func() (bool, error) {
+				if failed {
+					return false, vErr
+				}
+				return done, nil
+			})
+		}
+	}
+	verifrt.EndGuard()
+}
